@@ -2,6 +2,7 @@
 From MD Require Import Lib.Base Model.Node Model.Codec.Percent Model.Dec.Ip Model.Dec.ReLib Model.Dec.UrlSplit Model.Dec.Network.
 From MD Require Import Proofs.IpProofs Proofs.PercentProofs Proofs.UrlSplitProofs Proofs.NetworkProofs.
 From MD Require Import Regex.LocalityProofs Proofs.RoundTrip Proofs.RoundTrip2 Proofs.RoundTrip3 Proofs.RoundTrip4 Proofs.RoundTrip5 Proofs.RoundTrip6.
+From MD Require Import Proofs.RoundTrip8.
 
 (* the rendered address is a canonical dotted quad *)
 Theorem C10_ip_canonical : forall n : Z, 0 <= n < 2 ^ 32 -> canonical_quad (ipv4_compressed n) = true.
@@ -83,6 +84,15 @@ Print Assumptions C10_url_reported_verbatim.
 Theorem C10_domain_reported_verbatim : forall (pre : bytes) (labels : list bytes) (tld suf : bytes), labels_ok labels = true -> tld_ok tld = true -> mem (upper tld) Tables.TOP_LEVEL_DOMAINS = true -> let form := domain_form labels tld in 7 <= blen form -> domain_fp_b Tables.root_fpos Tables.tld_fpos form = false -> dom_pre_ok pre = true -> dom_stop suf = true -> (Datatypes.length pre + 2 * Datatypes.length form + Datatypes.length suf + 64 <= Backtrack.default_fuel)%nat -> let data := pre ++ form ++ suf in find_domains Tables.TOP_LEVEL_DOMAINS Tables.root_fpos Tables.tld_fpos data = Hang \/ (exists rest : list node, find_domains Tables.TOP_LEVEL_DOMAINS Tables.root_fpos Tables.tld_fpos data = Ok (Node (s2b "network.domain") form [] (blen pre) (blen pre + blen form) [] :: rest) /\ Forall (fun nd : node => blen pre + blen form <= n_st nd) rest).
 Proof. exact find_domains_roundtrip_table. Qed.
 Print Assumptions C10_domain_reported_verbatim.
+
+Theorem C10_url_port_reported_verbatim : forall (pre : list N) (scheme : bytes) (labels : list bytes) (tld port path suf : bytes), url_scheme_ok scheme -> labels_ok labels = true -> tld_ok tld = true -> mem (upper tld) Tables.TOP_LEVEL_DOMAINS = true -> let host := dotted labels ++ tld in (URL_HOST_MIN <= Datatypes.length host <= URL_HOST_MAX)%nat -> port_ok port = true -> url_path_ok path = true -> url_stop suf = true -> let form := url_form scheme (hostport host port) path in neutral Regexes.RE_network_URL_RE pre = true -> is_printable pre = true -> (Datatypes.length form + Datatypes.length (take_trail suf) + 200 <= Backtrack.default_fuel)%nat -> let data := pre ++ form ++ suf in find_urls Tables.TOP_LEVEL_DOMAINS data = Hang \/ (exists rest : list node, find_urls Tables.TOP_LEVEL_DOMAINS data = Ok (Node URL_TYPE form [] (blen pre) (blen pre + blen form) (url_port_kids scheme host port path) :: rest) /\ Forall (fun nd : node => blen pre + blen form <= n_st nd) rest).
+Proof. exact find_urls_roundtrip_port_table. Qed.
+Print Assumptions C10_url_port_reported_verbatim.
+
+(* a URL whose host is a canonical dotted quad is reported verbatim, host child typed network.ip *)
+Theorem C10_url_ip_host_reported_verbatim : forall (tlds : list bytes) (pre : list N) (scheme q path suf : bytes), url_scheme_ok scheme -> canonical_quad q = true -> url_path_ok path = true -> url_stop suf = true -> let form := url_form scheme q path in neutral Regexes.RE_network_URL_RE pre = true -> url_ctx_ok pre form suf = true -> (Datatypes.length form + Datatypes.length (take_trail suf) + 100 <= Backtrack.default_fuel)%nat -> let data := pre ++ form ++ suf in find_urls tlds data = Hang \/ (exists rest : list node, find_urls tlds data = Ok (Node URL_TYPE form [] (blen pre) (blen pre + blen form) (url_ip_kids scheme q path) :: rest) /\ Forall (fun nd : node => blen pre + blen form <= n_st nd) rest).
+Proof. exact find_urls_roundtrip_iphost. Qed.
+Print Assumptions C10_url_ip_host_reported_verbatim.
 
 Example C10_example :
   parse_ip (L"0x7f.1") = Ok (L"127.0.0.1", L"ip_obfuscation", 6)
